@@ -249,6 +249,9 @@ def run_case(spec):
     except Exception as exc:  # the expected outcome
         raised = exc
     observation = cls in OBSERVATION_CLASSES
+    if not submitted and isinstance(raised, ValueError) and ("Malformed Voronoi" in str(raised) or "Points cannot contain NaN" in str(raised)):
+        shutil.rmtree(workdir, ignore_errors=True)
+        return {"violations": [], "counters": {"refused_mesh": 1}, "classes": ["refused"], "nontrivial": False}
     if not submitted:
         shutil.rmtree(workdir, ignore_errors=True)
         return {"status": "harness_error", "error": f"could not construct the ill-posed problem ({cls}): {raised!r}"}
